@@ -273,7 +273,7 @@ func TestVerifC35Child(t *testing.T) {
 	}
 	// inputs are at most a few dozen KiB, so legitimate recursion (nested EXPLAIN) stays far below this;
 	// the default 1 GiB limit would only make a runaway recursion slow and memory-hungry to detect
-	debug.SetMaxStack(256 << 20)
+	debug.SetMaxStack(64 << 20)
 	start, _ := strconv.Atoi(os.Getenv("VERIF_C35_START"))
 	shard, _ := strconv.Atoi(os.Getenv("VERIF_C35_SHARD"))
 	nshards, _ := strconv.Atoi(os.Getenv("VERIF_C35_NSHARDS"))
@@ -458,7 +458,7 @@ func TestVerifC35Parse(t *testing.T) {
 				deaths++
 				mu.Unlock()
 				start = at + 1
-				if myDeaths >= 10 {
+				if myDeaths >= 3 {
 					r.Inconclusive(fmt.Sprintf("crash box %d gave up after %d process deaths; its jobs from %d on were not executed", sh, myDeaths, start))
 					return
 				}
